@@ -212,8 +212,144 @@ func c04VeryLong(c *core.Case) {
 	}
 }
 
+// c04Judge runs one merge and compares it with the unit-cell oracle.
+func c04Judge(c *core.Case, ids []ref.ID, H, V int64, class, what string) bool {
+	in := ref.Exts(ids)
+	got, err := integrate.MergeExtendedSpatialIds(in, H, V)
+	c.Call()
+	if err != nil {
+		c.Fail("merge-error", nil, "%s: MergeExtendedSpatialIds(%v,%d,%d) returned %v", what, trunc(in, 20), H, V, err)
+		return false
+	}
+	want, _, _ := c04Expect(ids, H, V)
+	gs, dup := ref.SetOfExt(got)
+	if missing, extra, same := ref.SameSet(gs, want); !same || dup {
+		c.Fail(class, nil, "%s: MergeExtendedSpatialIds(%v,%d,%d): missing %v, unexpected %v, duplicates %v", what, trunc(in, 20), H, V, missing, extra, dup)
+		return false
+	}
+	return true
+}
+
+// c04Crossing: sub-voxels of one target voxel of different aspect (slabs, columns, bars) that cross without nesting
+// and whose volumes add up to exactly the voxel's volume although their union does not fill it, together with an ID
+// 17 bits finer (so the voxel is worth > 65536 unit cells). Accounting by volume instead of by cells merges it.
+func c04Crossing(c *core.Case) {
+	r := c.R
+	H, V := r.Range(0, 27), r.Range(0, 27)
+	T := genID(r, H, H, V, V)
+	if r.Bool() {
+		T.F = clampI([]int64{-1, 0}[r.Intn(2)], -pow2(V), pow2(V)-1)
+	}
+	type asp struct{ dh, dv, vol int64 } // volume in 1/64 of the target voxel
+	aspects := []asp{{0, 1, 32}, {1, 0, 16}, {1, 1, 8}, {0, 2, 16}, {2, 0, 4}, {1, 2, 4}, {2, 1, 2}, {0, 3, 8}}
+	var ids []ref.ID
+	total := int64(0)
+	for try := 0; try < 80 && total < 64; try++ {
+		a := aspects[r.Intn(len(aspects))]
+		if total+a.vol > 64 {
+			continue
+		}
+		m := descendant(r, T, H+a.dh, V+a.dv)
+		ok := true
+		for _, o := range ids {
+			if ref.Contains(o, m) || ref.Contains(m, o) {
+				ok = false
+			}
+		}
+		if ok {
+			ids = append(ids, m)
+			total += a.vol
+		}
+	}
+	if total == 64 {
+		c.Tag("crossing-members-volume-sum-equals-voxel")
+	} else {
+		c.Tag("crossing-members")
+	}
+	host := T
+	if r.P(0.5) {
+		host = ref.Shift(T, 1, 0, 0)
+	}
+	ids = append(ids, descendant(r, host, H+6, V+5))
+	for i := range ids {
+		j := r.Intn(i + 1)
+		ids[i], ids[j] = ids[j], ids[i]
+	}
+	c.NonTrivial()
+	keyStrings(c, ref.Exts(ids))
+	c.KI(H, V)
+	c.Desc = func() any {
+		return map[string]any{"scenario": "crossing sub-voxels of different aspect + a 17-bit finer ID", "target": T.Ext(), "ids": ref.Exts(ids), "hZoom": H, "vZoom": V, "volume_sum_64ths": total}
+	}
+	c04Judge(c, ids, H, V, "merge-set-crossing-aspects", "crossing members")
+}
+
+// c04RadixSpan: two target voxels whose indices differ by exactly a round number R along one axis and by one along the
+// next axis - (x, y, z+R) and (x, y+1, z), or (x, y+R, z) and (x+1, y, z) - so that the list's extent on that axis is
+// exactly R: a group key that packs relative indices with radix R (guarded by "extent > R" instead of ">=") pools the
+// two. One gets k of its 8 children, the other the complementary 8-k (pooled: looks full), or one is full and the
+// other not (pooled: looks overfull).
+func c04RadixSpan(c *core.Case) {
+	r := c.R
+	// round numbers: {1,2,5} x 10^k (k = 3..7) and 2^k (k = 10..24)
+	R := []int64{1, 2, 5}[r.Intn(3)]
+	for k := r.Range(3, 7); k > 0; k-- {
+		R *= 10
+	}
+	if r.P(0.35) {
+		R = pow2(r.Range(10, 24))
+	}
+	H, V := r.Range(25, 30), r.Range(25, 30)
+	T1 := ref.ID{H: H, X: r.Range(0, pow2(H)-2), Y: r.Range(0, pow2(H)-R-2), V: V, F: r.Range(-pow2(V), pow2(V)-R-1)}
+	T2 := T1
+	if r.Bool() {
+		T1.F += R
+		T2.Y++
+	} else {
+		T1.Y += R
+		T2.X++
+	}
+	k1 := ref.ChangeOne(T1, H+1, V+1)
+	k2 := ref.ChangeOne(T2, H+1, V+1)
+	var ids []ref.ID
+	switch r.Intn(3) {
+	case 0: // complementary halves
+		n := 1 + r.Intn(7)
+		ids = append(ids, k1[:n]...)
+		ids = append(ids, k2[n:]...)
+	case 1: // one full, one partial
+		ids = append(ids, k1...)
+		ids = append(ids, k2[:1+r.Intn(7)]...)
+	default: // both full
+		ids = append(ids, k1...)
+		ids = append(ids, k2...)
+	}
+	if r.Bool() {
+		for i := range ids {
+			j := r.Intn(i + 1)
+			ids[i], ids[j] = ids[j], ids[i]
+		}
+	}
+	c.Tag("targets-a-round-number-apart")
+	c.NonTrivial()
+	keyStrings(c, ref.Exts(ids))
+	c.KI(H, V, R)
+	c.Desc = func() any {
+		return map[string]any{"scenario": "two target voxels exactly R apart on one axis and 1 apart on the next", "R": R, "T1": T1.Ext(), "T2": T2.Ext(), "ids": ref.Exts(ids)}
+	}
+	c04Judge(c, ids, H, V, "merge-set-round-span", fmt.Sprintf("targets %s and %s (R=%d)", T1.Ext(), T2.Ext(), R))
+}
+
 func runC04(c *core.Case) {
 	r := c.R
+	if c.I >= c04Directed && r.P(0.004) {
+		c04Crossing(c)
+		return
+	}
+	if c.I >= c04Directed && r.P(0.01) {
+		c04RadixSpan(c)
+		return
+	}
 	if c.I >= c04Directed && r.P(0.0015) {
 		c04History(c)
 		return
